@@ -1,6 +1,6 @@
 """Generators for list-command scripts (C15)."""
 import itertools, random
-from common import Script
+from common import *
 
 KEYS = ["a", "b"]
 ELEMS = ["x", "y", "", "x\r\n\x00\xff", "12"]
@@ -29,11 +29,12 @@ def alphabet(keys=("a",), small=True):
 
 PRESETS = [
     [],                                             # nothing
-    [("RPUSH", "a", "x", "y", "x")],
-    [("RPUSH", "a", "x", "x", "y", "x", "x")],
-    [("RPUSH", "a", "x"), ("RPUSH", "b", "y", "")],
-    [("SET", "a", "str")],
-    [("RPUSH", "a", "x"), ("LPOP", "a")],           # emptied list
+    [("a", vlist(["x", "y", "x"]))],
+    [("a", vlist(["x", "x", "y", "x", "x"]))],
+    [("a", vlist(["x"])), ("b", vlist(["y", ""]))],
+    [("a", vstr("str"))],
+    [("a", vlist([]))],                             # emptied list
+    [("a", vset(["m"])), ("b", vlist(["x", "y"]))],
 ]
 
 def finish(s, keys):
@@ -50,8 +51,8 @@ def exhaustive(depth, tag="x"):
         for d in range(1, depth + 1):
             for seq in itertools.product(alpha, repeat=d):
                 s = Script("%s%d" % (tag, n)); n += 1
-                for c in preset:
-                    s.cmd(0, *c)
+                for k, v in preset:
+                    s.preset(0, k, v)
                 s.digest()
                 s.setup_len = len(preset)
                 for c in seq:
@@ -80,20 +81,20 @@ def rand_cmd(rng, malformed=False):
         else: argv = argv + [e()]
     return argv
 
+OTHER_VALUES = [vstr("v"), vint(12), vfloat(3, 2), vset(["m1", "m2"]), vhash({"f": vstr("v")}), vzset({"m": "1/1"})]
+
 def rand_preset(rng, s):
     n = 0
+    now = 1700000000000
     for k in KEYS + ["c"]:
         r = rng.random()
-        if r < 0.45:
-            s.cmd(0, "RPUSH", k, *[rng.choice(ELEMS) for _ in range(rng.randint(1, 5))]); n += 1
-        elif r < 0.55:
-            s.cmd(0, "SET", k, rng.choice(["v", "12", ""])); n += 1
-        elif r < 0.62:
-            s.cmd(0, "SADD", k, "m1", "m2"); n += 1
-        elif r < 0.69:
-            s.cmd(0, "HSET", k, "f", "v"); n += 1
-        elif r < 0.76:
-            s.cmd(0, "ZADD", k, "1", "m"); n += 1
+        dl = rng.choice([0, 0, 0, now + 5000, now - 5])   # none / future / already passed
+        if r < 0.5:
+            s.preset(0, k, vlist([rng.choice(ELEMS) for _ in range(rng.randint(0, 5))]), dl); n += 1
+        elif r < 0.75:
+            s.preset(0, k, rng.choice(OTHER_VALUES), dl); n += 1
+    if rng.random() < 0.2:
+        s.preset(1, "a", vlist(["other-db"])); n += 1
     return n
 
 def random_scripts(rng, count, length, malformed=False, tag="r"):
